@@ -15,8 +15,14 @@ open Conv_nat
 let graph_of_graph6 (s : string) : bool list list =
   let len = String.length s in
   if len = 0 then failwith "empty graph6";
-  let n = Char.code s.[0] - 63 in
-  if n < 0 || n > 62 then failwith "graph6 order";
+  let n0 = Char.code s.[0] - 63 in
+  let n, s =
+    if n0 = 63 then begin
+      if len < 4 then failwith "graph6 order";
+      let c i = Char.code s.[i] - 63 in
+      ((c 1 lsl 12) lor (c 2 lsl 6) lor c 3, String.sub s 3 (len - 3))
+    end else (n0, s) in
+  if n < 0 || n > 2000 then failwith "graph6 order";
   let a = Array.make_matrix n n false in
   let bit = ref 0 in
   for j = 1 to n - 1 do
@@ -32,7 +38,13 @@ let graph6_of_graph (g : bool list list) : string =
   let a = Array.of_list (List.map Array.of_list g) in
   let n = Array.length a in
   let b = Buffer.create 16 in
-  Buffer.add_char b (Char.chr (n + 63));
+  if n <= 62 then Buffer.add_char b (Char.chr (n + 63))
+  else begin
+    Buffer.add_char b '~';
+    Buffer.add_char b (Char.chr (((n lsr 12) land 63) + 63));
+    Buffer.add_char b (Char.chr (((n lsr 6) land 63) + 63));
+    Buffer.add_char b (Char.chr ((n land 63) + 63))
+  end;
   let cur = ref 0 and k = ref 0 in
   for j = 1 to n - 1 do
     for i = 0 to j - 1 do
